@@ -101,15 +101,20 @@ type c20Scenario struct {
 	Secondary string `json:"secondary"` // absent | fresh | stale | refusing | reset   (tcpbackend: conn state + destination)
 	Sends     int    `json:"sends"`
 	Rearm     []int  `json:"rearm,omitempty"` // random part: before send i re-arm a fault (see code)
+	Local     string `json:"local,omitempty"` // "" = no local address configured (what the wiring passes then), "addr" = a local address of the block is configured
 }
 
 func (s c20Scenario) String() string {
+	if s.Local != "" {
+		return fmt.Sprintf("%s primary=%s secondary=%s sends=%d rearm=%v local=%s", s.Subject, s.Primary, s.Secondary, s.Sends, s.Rearm, s.Local)
+	}
 	return fmt.Sprintf("%s primary=%s secondary=%s sends=%d rearm=%v", s.Subject, s.Primary, s.Secondary, s.Sends, s.Rearm)
 }
 
 type c20Env struct {
 	accept, reset *c20Listener
 	refusing      string
+	localIP       string
 	msgs          []*Message
 	wires         [][]byte
 }
@@ -131,6 +136,7 @@ func newC20Env(c int) (*c20Env, error) {
 	}
 	e.refusing = ln.Addr().String()
 	ln.Close()
+	e.localIP = n.ip(c, 9)
 	for i := 0; i < 12; i++ {
 		body := strings.Repeat(fmt.Sprintf("payload-%d-", i), 3+i)
 		text := fmt.Sprintf("MESSAGE sip:dest%d@example.test SIP/2.0\r\nVia: SIP/2.0/TCP 127.0.0.2:5060;branch=z9hG4bKc20m%d\r\nFrom: <sip:a@b>;tag=%d\r\nTo: <sip:c@d>\r\nCall-ID: c20-msg-%d\r\nCSeq: %d MESSAGE\r\nContent-Length: %d\r\n\r\n%s", i, i, i, i, i+1, len(body), body)
@@ -169,11 +175,14 @@ func c20Run(e *c20Env, sc c20Scenario) (fail string, faultHit bool) {
 		// release what the scenario opened, without TIME_WAIT (reset): thousands
 		// of scenarios must not exhaust the local port range
 		for _, f := range cleanup {
-			f()
+			func() {
+				defer func() { recover() }() // (an object the product left in a broken state must not take the harness down)
+				f()
+			}()
 		}
 	}()
 	hardClose := func(c net.Conn) {
-		if tc, ok := c.(*net.TCPConn); ok {
+		if tc, ok := c.(*net.TCPConn); ok && tc != nil {
 			tc.SetLinger(0)
 			tc.Close()
 		}
@@ -219,7 +228,12 @@ func c20Run(e *c20Env, sc c20Scenario) (fail string, faultHit bool) {
 			dh, dps, _ := net.SplitHostPort(dest)
 			dp := 0
 			fmt.Sscanf(dps, "%d", &dp)
-			st, _ := NewTCPClientTransport(dh, dp, "", established)
+			// (the proxy passes its own address as the local address of outbound connections)
+			localAddress := ""
+			if sc.Local == "addr" {
+				localAddress = e.localIP
+			}
+			st, _ := NewTCPClientTransport(dh, dp, localAddress, established)
 			if sc.Secondary == "stale" {
 				staleConn = &c20Conn{name: "stale", failAfter: 0}
 				scripted = append(scripted, staleConn)
@@ -238,7 +252,12 @@ func c20Run(e *c20Env, sc c20Scenario) (fail string, faultHit bool) {
 		if dest == "" {
 			dest = e.refusing
 		}
-		tb, _ := NewTCPBackend("", dest, established)
+		// what NewProxyItem passes: JoinHostPort(backend-local-address, backend-local-port), ":0" when neither is configured
+		localhostport := ":0"
+		if sc.Local == "addr" {
+			localhostport = e.localIP + ":0"
+		}
+		tb, _ := NewTCPBackend(localhostport, dest, established)
 		switch sc.Primary {
 		case "healthy":
 			primaryConn = &c20Conn{name: "cached", failAfter: -1}
@@ -421,8 +440,8 @@ func fo2sec(fo *FailOverClientTransport) (*TCPClientTransport, bool) {
 }
 
 func TestC20(t *testing.T) {
-	V.Rule("unit, fault enumeration: cached inbound connection {absent, healthy, failing on write after 0 / 1 / len-1 bytes} x reconnectable path {absent, fresh, stale connection failing once then destination accepts, destination refusing, destination accepting then resetting, the same with the reset observed before the write (connection-established callback waits for it: every write then fails for certain)} x send sequences of 1-3 distinct messages x subject {FailOverClientTransport over TCPClientTransports, TCPBackend (cached connection x destination)} enumerated completely; plus rapid-generated sequences of up to 12 sends with faults re-armed between sends (cached connection breaks later; peer drops the reconnectable connection). Scripted net.Conn doubles record every Write; real loopback listeners record every accepted connection's bytes. Oracle: success => some connection received the complete message (not asserted for a resetting destination); a working path (healthy cached connection or accepting destination) => the send must succeed; all writes failed for certain (reset observed) => the send must not report success; refusing destination => error within the call, no hang, no panic; a failed cached connection is never written again; every real connection holds a concatenation of complete messages; no message is written completely twice. non-trivial = scenario in which a write or dial fails and a later attempt exists; distinct by scenario")
-	V.Require("fault hit", "subject:failover", "subject:tcpbackend", "secondary:refusing", "secondary:reset", "secondary:stale", "primary:fail@len-1")
+	V.Rule("unit, fault enumeration: cached inbound connection {absent, healthy, failing on write after 0 / 1 / len-1 bytes} x reconnectable path {absent, fresh, stale connection failing once then destination accepts, destination refusing, destination accepting then resetting, the same with the reset observed before the write (connection-established callback waits for it: every write then fails for certain)} x send sequences of 1-3 distinct messages x subject {FailOverClientTransport over TCPClientTransports, TCPBackend (cached connection x destination)} x {no local address configured, a local address configured for outbound connections} enumerated completely; plus rapid-generated sequences of up to 12 sends with faults re-armed between sends (cached connection breaks later; peer drops the reconnectable connection). Scripted net.Conn doubles record every Write; real loopback listeners record every accepted connection's bytes. Oracle: success => some connection received the complete message (not asserted for a resetting destination); a working path (healthy cached connection or accepting destination) => the send must succeed; all writes failed for certain (reset observed) => the send must not report success; refusing destination => error within the call, no hang, no panic; a failed cached connection is never written again; every real connection holds a concatenation of complete messages; no message is written completely twice. non-trivial = scenario in which a write or dial fails and a later attempt exists; distinct by scenario")
+	V.Require("a local address is configured for outbound connections", "fault hit", "subject:failover", "subject:tcpbackend", "secondary:refusing", "secondary:reset", "secondary:stale", "primary:fail@len-1")
 	env, err := newC20Env(210)
 	if err != nil {
 		V.HarnessError(t, "environment: %v", err)
@@ -442,8 +461,9 @@ func TestC20(t *testing.T) {
 			}
 			for _, p := range prims {
 				for _, s := range secs {
-					for sends := 1; sends <= 3; sends++ {
-						sc := c20Scenario{Subject: subject, Primary: p, Secondary: s, Sends: sends}
+					for sl := 0; sl < 6; sl++ {
+						sends := 1 + sl%3
+						sc := c20Scenario{Subject: subject, Primary: p, Secondary: s, Sends: sends, Local: []string{"", "addr"}[sl/3]}
 						if !V.OnlyMatch(sc.String()) {
 							continue
 						}
@@ -453,6 +473,7 @@ func TestC20(t *testing.T) {
 						V.Class("subject:" + subject)
 						V.Class("primary:" + p)
 						V.Class("secondary:" + s)
+						V.ClassIf(sc.Local == "addr", "a local address is configured for outbound connections")
 						if hit {
 							V.Class("fault hit")
 							V.NonTrivial(sc.String())
@@ -470,7 +491,7 @@ func TestC20(t *testing.T) {
 			}
 		}
 		V.Exhaustive(complete && V.only == "")
-		V.Extra("exhaustive_subspace", fmt.Sprintf("%d scenarios: {failover: 5 cached-connection states x 5 reconnectable-path states, tcpbackend: 5 cached-connection states x 3 destinations} x 1-3 sends", n))
+		V.Extra("exhaustive_subspace", fmt.Sprintf("%d scenarios: {failover: 5 cached-connection states x 5 reconnectable-path states, tcpbackend: 5 cached-connection states x 4 destinations} x 1-3 sends x local address unset/set", n))
 	})
 
 	rcheck(t, "random", V.N(1500, 6000), func(rt *rapid.T) {
@@ -482,6 +503,7 @@ func TestC20(t *testing.T) {
 			sc.Secondary = rapid.SampledFrom([]string{"fresh", "fresh", "refusing", "reset", "reset-observed"}).Draw(rt, "destination")
 		}
 		sc.Sends = rapid.IntRange(1, 12).Draw(rt, "sends")
+		sc.Local = rapid.SampledFrom([]string{"", "addr"}).Draw(rt, "local address")
 		for i := 0; i < sc.Sends; i++ {
 			r := rapid.IntRange(0, 5).Draw(rt, "rearm")
 			if r > 2 {
